@@ -650,6 +650,79 @@ func c16Extra(c *Ctx) {
 		})
 	}
 
+	c.rule("C16-R11", "LCK/blocking: a room broadcast runs on the hub loop and holds Room.mu: while that mutex is held (shared or exclusive) nothing can block - no blocking send, receive or select, directly or in a function of the package that is called there. A queue-strategy helper that waits for space (`Connection.Send` in block mode waits for the queue or for `done`, which only the hub loop closes) turns one stalled member into a hub that takes no register, unregister or message any more")
+	{
+		e11 := newLck(c, &lckConfig{rule: "C16-R11", pkgs: []string{wsPkg}, guards: nil})
+		canBlock := map[*ssa.Function]int{} // 0 unknown, 1 no, 2 yes
+		var blocks func(f *ssa.Function, d int) bool
+		blocks = func(f *ssa.Function, d int) bool {
+			if f == nil || d > 4 || f.Pkg == nil || f.Pkg.Pkg.Path() != wsPath16 || len(f.Blocks) == 0 {
+				return false
+			}
+			if v := canBlock[f]; v != 0 {
+				return v == 2
+			}
+			canBlock[f] = 1
+			r := false
+			eachInstr(f, func(_ *ssa.BasicBlock, _ int, ins ssa.Instruction) {
+				switch x := ins.(type) {
+				case *ssa.Send:
+					r = true
+				case *ssa.UnOp:
+					if x.Op == token.ARROW {
+						r = true
+					}
+				case *ssa.Select:
+					if x.Blocking {
+						r = true
+					}
+				case *ssa.Call:
+					if blocks(staticFn(x), d+1) {
+						r = true
+					}
+				}
+			})
+			if r {
+				canBlock[f] = 2
+			}
+			return r
+		}
+		n := 0
+		for _, fn := range c.srcFuncs(wsPkg) {
+			at, _ := e11.analyse(fn)
+			k := 0
+			eachInstr(fn, func(_ *ssa.BasicBlock, _ int, ins ssa.Instruction) {
+				held := false
+				for cls, m := range at[ins] {
+					if strings.HasSuffix(cls, ".Room.mu") && m > 0 {
+						held = true
+					}
+				}
+				if !held {
+					return
+				}
+				n++
+				bad := false
+				switch x := ins.(type) {
+				case *ssa.Send:
+					bad = true
+				case *ssa.UnOp:
+					bad = x.Op == token.ARROW
+				case *ssa.Select:
+					bad = x.Blocking
+				case *ssa.Call:
+					bad = blocks(staticFn(x), 0)
+				}
+				if bad {
+					k++
+					c.ob("C16-R11", fnKey(fn)+"#nothing-blocks-under-the-room-lock-"+itoa(k), ins.Pos(), false, "an operation that can block executes while Room.mu is held (by the hub loop, during a room broadcast): one member whose queue is full and not drained stops the hub for ever - no register, unregister or handler runs again, and Shutdown hangs")
+				}
+			})
+		}
+		c.Sites["C16-R11#instructions-under-the-room-lock"] = n
+		c.ob("C16-R11", wsPkg+"#instructions-under-the-room-lock-examined", token.NoPos, n >= 10, "fewer than 10 instructions found under Room.mu: the room code is not where the rule expects it")
+	}
+
 	c.rule("C16-R10", "ATOM: a connection's membership has two views - the room's table (Room.connections) and its own (Connection.rooms) - and a tear-down that must leave it in no room. They agree under every interleaving only if each change of membership is one critical section of the connection: (a) every function of Connection that changes both views (calls the room-side add/remove and updates Connection.rooms) holds one mutex of the connection across both steps; (b) the hub's tear-down removes the connection from its rooms under that same mutex and marks the connection as gone there, and (c) the joining function tests that mark under the mutex before it adds - otherwise a join that the loop handles after the unregister (both are queued, select picks at random) puts a connection whose send channel is closed back into a room, and the next room broadcast panics on the hub goroutine")
 	{
 		type memberFn struct {
